@@ -15,7 +15,8 @@ B1 interval helpers: the linear bound sum takes the lower bound for non-negative
    include 0 when the domain crosses it; min/max array helpers fold with the right operation.
 """
 import math
-from ..cfg import Facts, kids, strip, walk, cv, render, call_args, call_object
+import re
+from ..cfg import xrender, norm_facts, expand_locals, Facts, kids, strip, walk, cv, render, call_args, call_object
 from ..cfg import short_loc as _short_loc
 from ..facts import export_many, AnalysisBroken
 
@@ -491,14 +492,28 @@ def run(rep, ctx):
     b1 = rep.rule("C06.B1", "TABLE", "interval helpers pick the right corner per coefficient sign and fold with the right operation", floor=8)
     lin = [f for f in funcs if f.qn == "mp::BoundComputations::ComputeBoundsAndType" and f.params and "LinTerms" in (f.params[0].get("t") or "") and "Quad" not in (f.params[0].get("t") or "")]
     for f in lin[:1]:
-        adds = [(render(kids(n)[0]), norm(render(kids(n)[1])), [(norm(render(f.nodes[cid])), pol) for cid, pol in f.cfg.facts_at(n)])
+        # shape, not text: the right-hand side is coefficient * (lb | ub of the variable); the guard is the sign test of the coefficient
+        def corner(e):
+            e = expand_locals(f, e, 0, True)
+            names = [(c.get("callee") or "").split("::")[-1] for c in walk(e) if c["k"] == "CXXMemberCallExpr"]
+            b = [x for x in names if x in ("lb", "ub")]
+            top = strip(e)
+            return ("c*model.%s(v)" % b[0]) if len(b) == 1 and "coef" in names and top["k"] == "BinaryOperator" and top.get("op") == "*" else norm(render(e))
+
+        def sign_of(fa):
+            for t, pol in fa:
+                m_ = re.match(r"^.*coef\(.*\)(>=|<)0(\.0)?$", t)
+                if m_:
+                    return pol if m_.group(1) == ">=" else (not pol)
+            return None
+        adds = [(render(kids(n)[0]), corner(kids(n)[1]), norm_facts(f, n, loop_conditions=False, all_locals=True))
                 for n in f.walk() if n["k"] == "CompoundAssignOperator" and n.get("op") == "+="]
         want = {("result.lb_", True): "c*model.lb(v)", ("result.ub_", True): "c*model.ub(v)", ("result.lb_", False): "c*model.ub(v)", ("result.ub_", False): "c*model.lb(v)"}
         got = {}
         for tgt, rhs, fa in adds:
-            pos = [pol for t, pol in fa if t == "c>=0"]
-            if pos:
-                got[(tgt, pos[0])] = rhs
+            sg = sign_of(fa)
+            if sg is not None:
+                got[(tgt, sg)] = rhs
         b1.check(got == want, "linear-corners", short_loc(f.loc), "c >= 0: lb += c*lb(v), ub += c*ub(v); c < 0: lb += c*ub(v), ub += c*lb(v)", str(got))
         ty = [n for n in f.walk() if n["k"] == "IfStmt" and "CONTINUOUS" in render(kids(n)[1])]
         b1.check(len(ty) == 1 and "INTEGER!=model.var_type(v)||!is_integer(c)" in norm(render(kids(ty[0])[0])),
